@@ -158,8 +158,8 @@ double NelderMeadSimplex(double (*func)(),
 
     x_r_res = func(x_tmp);
     //printf("Compute reflection: %f\n", x_r_res);
-    /* if f(0) < f(r) < f(n) */
-    if(x->data[0][x->col-1] < x_r_res && x_r_res < x->data[x->row-2][x->col-1]){
+    /* if f(0) <= f(r) < f(n) */
+    if(x->data[0][x->col-1] <= x_r_res && x_r_res < x->data[x->row-2][x->col-1]){
       /*replace xn+1 with the reflection x_r*/
       replace_xnp1(x, x_r, x_r_res);
     }
